@@ -134,15 +134,15 @@ struct Exec {
             if (nobj) return is_tks(k) || k == MK || is_ctr(k);
             if (is_tks(k)) return st.keyed && st.tweaked;
             if (k == MK) return st.keyed;
-            if (k == CTR128 || k == CTR64) return st.life != L_RAW && (st.life != L_INIT || (st.keyed && st.tweaked));
-            if (k == MCTR) return st.life != L_RAW && (st.life != L_INIT || st.keyed);
+            if (k == CTR128 || k == CTR64) return st.life != L_RAW && (st.life != L_INIT || (st.keyed && st.tweaked) || cfg.allow_odd);
+            if (k == MCTR) return st.life != L_RAW && (st.life != L_INIT || st.keyed || cfg.allow_odd);
             return false;
         case OP_SETCTR: return is_ctr(k) && (nobj || st.life != L_RAW);
         case OP_ENC:
             if (!is_ctr(k)) return false;
             if (nobj) return true;
             if (st.life == L_RAW) return false;
-            if (st.life == L_INIT && !st.keyed) return false;
+            if (st.life == L_INIT && !st.keyed) return false;      // data before any key: caller error, not a defined sequence
             if ((o.flags & (F_NULLA | F_NULLOUT)) && o.size == 0) return false;
             return true;
         case OP_PENC: case OP_PDEC:
@@ -387,6 +387,8 @@ struct Exec {
             }
             break;
         case OP_SETTWEAK:
+            if (ret != 0 && obj && is_ctr(k) && !is_mantis(k) && !(st.keyed && st.tweaked)) { st.stream_ok = false; st.ksoff = bs; PROBE("odd.set_tweak-on-untweaked-ctr"); break; }
+            if (ret != 0 && obj && k == MCTR && !st.keyed) { PROBE("odd.set_tweak-before-key"); break; }
             if (ret != 0 && obj) {
                 if (!pa) PROBE("tweak.null"); else if (o.size < bs) PROBE("tweak.short");
                 if (pa && memcmp(st.tweak, o.a.data(), std::min<size_t>(o.size, o.a.size())) == 0 && o.size == bs) PROBE("tweak.same-value-again");
@@ -410,6 +412,7 @@ struct Exec {
             if (obj && st.keyed) { st.mode = !st.mode; ++st.nswaps; rebuild_ref(st); if (stop) return; }
             break;
         case OP_ENC:
+            if (ret != 0 && obj && !st.keyed) break;      // allow_odd: no model, the hosts are compared with each other
             if (ret != 0 && obj) {
                 {
                     unsigned batch = ctr_batch_bytes(k, st.backend); uint64_t endpos = st.stream_pos + o.a.size();
@@ -448,6 +451,7 @@ struct Exec {
             }
             break;
         case OP_PENC: case OP_PDEC:
+            if (ret != 0 && obj && !st.keyed) break;
             if (ret != 0 && obj) {
                 Bytes expb(o.a.size());
                 bool dec = o.code == OP_PDEC;
@@ -590,12 +594,14 @@ struct Exec {
         if (!stop && cfg.epilogue_cleanup) {
             for (size_t s = 0; s < S.size() && !stop; ++s) if (S[s].life == L_INIT) {
                 cur = (int)plan.ops.size();
+                int freeop = cur;
                 g_heap.begin_op(cur, 0);
                 int be = S[s].backend;
                 bool ok = GUARDED_CALL(lib_cleanup(S[s].kind, S[s].h));
                 if (!ok) { violate("crash", strf("final cleanup of %s#%zu crashed", KIND_NAME[S[s].kind], s)); break; }
                 S[s].life = L_CLEANED;
-                if (on(CK_WIPE)) for (auto &b : g_heap.blocks) if (b.free_op == cur && b.owner_slot == (int)s && !b.zero_at_free) { violate("not-wiped", strf("final cleanup of %s#%zu (%s back end) released block #%d (%zu bytes) with non-zero content at offset %zu", KIND_NAME[S[s].kind], s, be == 2 ? "256-bit" : be == 1 ? "128-bit" : "generic", b.id, b.size, b.first_nonzero_at_free)); break; }
+                for (int q = (int)plan.ops.size() - 1; q >= 0; --q) if (plan.ops[q].slot == (int)s) { cur = q; break; }   // report against the last operation on this object
+                if (on(CK_WIPE)) for (auto &b : g_heap.blocks) if (b.free_op == freeop && b.owner_slot == (int)s && !b.zero_at_free) { violate("not-wiped", strf("final cleanup of %s#%zu (%s back end) released block #%d (%zu bytes) with non-zero content at offset %zu", KIND_NAME[S[s].kind], s, be == 2 ? "256-bit" : be == 1 ? "128-bit" : "generic", b.id, b.size, b.first_nonzero_at_free)); break; }
                 if (on(CK_HEAP) && !g_heap.issues.empty()) { violate("heap-misuse", g_heap.issues[0].what); break; }
             }
             if (!stop && on(CK_HEAP)) {
